@@ -159,7 +159,7 @@ def normalise(mod):
     count = 0
     for q, lst in mod.defs.items():
         fn = lst[-1]
-        if not isinstance(fn, FUNC_TYPES) or q not in tbl:
+        if not isinstance(fn, FUNC_TYPES) or q not in tbl or q == "__digest__":
             continue
         pin = tbl[q]
         cur = local_bindings(fn)
